@@ -17,6 +17,7 @@ From Qv Require Import Common.Bytes Gen.GenQrdata Model.Mime.
 
 Record St := mkSt { out : list bytes; lastlf : bool }.
 Definition wr (st : St) (w : bytes) : St := mkSt (w :: out st) (lastlf st).
+Definition set_lastlf (st : St) (v : bool) : St := mkSt (out st) v.
 
 (** outcome of code that may give up through net_conn_shutdown() *)
 Inductive Run (A : Type) : Type :=
@@ -146,7 +147,11 @@ Fixpoint wl_loop (fuel : nat) (m : bytes) (b : nat) (off pos bo : nat) (sb : byt
                          Ok (if Nat.ltb lateoff WL_LATEMAX then lateoff else p0)
                        else Ok p0);
         let '(bo, sb, st) := if Nat.leb (WL_BUF - WL_FLUSH_MARGIN) (partoff + bo) then (0, [], wr st sb) else (bo, sb, st) in
-        do s1 <- (if Nat.eqb pos 0 then Ok (bo, sb) else do sb1 <- sb_add WL_BUF bo sb [SP]; Ok (S bo, sb1));
+        (* if (pos) sendbuf[bo++] = ' '; else if (buf[0] == '.') sendbuf[bo++] = '.'; *)
+        do s1 <- (if Nat.eqb pos 0 then
+                    do c0 <- rd m b;
+                    if N.eqb c0 DOT then do sb1 <- sb_add WL_BUF bo sb [DOT]; Ok (S bo, sb1) else Ok (bo, sb)
+                  else do sb1 <- sb_add WL_BUF bo sb [SP]; Ok (S bo, sb1));
         let '(bo, sb) := s1 in
         let partoff := S partoff in
         do d <- rdn m (b + pos) partoff;
@@ -162,11 +167,11 @@ Definition wrap_line (m : bytes) (b len : nat) (st : St) : Cres (nat * St) :=
   let '(pos, off, bo, sb, st) := r in
   do sb1 <- sb_add WL_BUF bo sb [SP];
   let bo := S bo in
-  if Nat.leb (WL_BUF - WL_END_MARGIN) (off + bo) then Ok (pos, wr st sb1)
-  else
-    do d <- rdn m (b + pos) off;
-    do sb2 <- sb_add WL_BUF bo sb1 (d ++ CRLF);
-    Ok (len, wr st sb2).
+  (* not enough room for the end of the line: flush first *)
+  let '(bo, sb1, st) := if Nat.leb (WL_BUF - WL_END_MARGIN) (off + bo) then (0, [], wr st sb1) else (bo, sb1, st) in
+  do d <- rdn m (b + pos) off;
+  do sb2 <- sb_add WL_BUF bo sb1 (d ++ CRLF);
+  Ok (len, set_lastlf (wr st sb2) true).
 
 (* ------------------------------------------------------------------ send_wrapped / wrap_header *)
 (** returns (pos, off, ll) *)
@@ -436,7 +441,6 @@ Definition nr_match (ext8 : bool) (f : Flags) : bool := (negb ext8 && f8 f) || f
 
 Definition lift {A} (x : Cres (A * St)) : Cres (Run A) := do r <- x; let '(a, st) := r in Ok (Done a st).
 Definition liftS (x : Cres St) : Cres (Run unit) := do st <- x; Ok (Done tt st).
-Definition set_lastlf (st : St) (v : bool) : St := mkSt (out st) v.
 
 (** the while loop over the parts is [parts]; both recursions (into a part, to the next part) use [fuel] *)
 Fixpoint send_qp (fuel : nat) (m : bytes) (helo : bytes) (ext8 : bool) (b len : nat) (st : St) {struct fuel} : Cres (Run unit) :=
